@@ -42,7 +42,8 @@ def run(pid, tier, seed, replay=None):
         ck.cov["evaluations"] = len(rows)
         ck.cov["distinct_nontrivial"] = len(rows)
         ck.cov["rule"] = "files of 1..6 dimensions, orders 0..5, 0..50 mixed auxiliary keys (short/HIERARCH, value lengths 0..68) or 60..260 keys of one kind with card-filling values; every seventh file has one axis of 300..900 knots; each loaded without convolution and with 2..8 kernel knots in a random dimension"
-        ck.sample({k: rows[1][k] for k in ("m", "cd", "nk", "peak", "estimate")})
+        if rows:
+            ck.sample({k: rows[min(1, len(rows) - 1)][k] for k in ("m", "cd", "nk", "peak", "estimate")})
         return ck.finish(exhaustive=False)
     finally:
         if not os.environ.get("VERIF_KEEP"):
